@@ -17,4 +17,17 @@ PROPS = {
         "trusted_base": M0_TRUST,
         "assumptions": ["the LEX channel explores finitely many inputs; outside them the theorems are about the model only"],
     },
+    "C20": {
+        "module": "MF.Props.C20",
+        "theorems": ["MF.Props.C20.resolvePos_spec", "MF.Props.C20.line_is_newline_count",
+                     "MF.Props.C20.position_total", "MF.Props.C20.position_panics_beyond",
+                     "MF.Props.C20.error_prefix"],
+        "channels": ["POS"],
+        "pred": True,
+        "level": "proof",
+        "trusted_base": ["hand-written model MF/Model/File.lean of token/file.go and error.go (Error.Error); "
+                         "specification MF/Spec/LineCol.lean (scan from the start, a newline byte starts a new line)"],
+        "assumptions": ["the text of the multi-line excerpt is validated by the POS channel and the implementation predicate, not proved",
+                        "fmt's %3d / %d formatting is modelled (pad3, decimal) and validated by the POS channel"],
+    },
 }
